@@ -77,7 +77,7 @@ CapsAll   == {20, 36, 45, 50, 75, 100, 150, 225, 275, 300}
 CapChoicesQuick(s) ==
     IF s = "jpl" THEN {<<45, 150>>, <<20, 75>>} ELSE {<<c>> : c \in CapsQuick}
 CapChoicesAll(s) ==
-    IF s = "jpl" THEN {<<45, 150>>, <<20, 50>>, <<75, 225>>, <<100, 300>>, <<36, 275>>}
+    IF s = "jpl" THEN {<<45, 150>>, <<20, 50>>, <<100, 275>>}
     ELSE {<<c>> : c \in CapsAll}
 CapChoicesGen(s) ==
     CASE s = "jpl" -> {<<45, 150>>} [] s = "caltech" -> {<<150>>, <<50>>}
@@ -93,9 +93,9 @@ LatticeQuick(s, cp) ==
       [] s = "jpl" -> JplLat(cp, {0, 9, 16}, 1, {0})
       [] s = "simple" -> SimpleLat(cp, 16)
 LatticeThorough(s, cp) ==
-    CASE s = "caltech" -> CaltechLat(cp, 7, PodLat \cup {120})
-      [] s = "office001" -> OfficeLat(cp, 24)
-      [] s = "jpl" -> JplLat(cp, {0, 5, 9, 16}, 2, {0, 6, 16})
+    CASE s = "caltech" -> CaltechLat(cp, 5, PodLat)
+      [] s = "office001" -> OfficeLat(cp, 16)
+      [] s = "jpl" -> JplLat(cp, {0, 9, 16}, 2, {0, 6, 16})
       [] s = "simple" -> SimpleLat(cp, 40)
 \* generation: small enough to emit and replay every case
 LatticeGen(s, cp) ==
